@@ -108,13 +108,14 @@ def install_probes():
     import ioos_qc.qartod as q
 
     def vf_probe_test(inp, tinp=None, zinp=None, lat=None, lon=None, tag=0):
-        a = np.asarray(_a(inp), dtype=float)
+        raw = _a(inp)
+        a = np.asarray(raw, dtype=float)
         LOG.append({"ev": "probe", "tag": tag, "ids": a.tolist(), "tinp": _times_to_secs(tinp),
                     "zinp": None if zinp is None else _a(zinp).astype(float).tolist(),
                     "lat": None if lat is None else _a(lat).astype(float).tolist(),
                     "lon": None if lon is None else _a(lon).astype(float).tolist(),
                     "shape": list(a.shape)})
-        flat = a.reshape(-1)
+        flat = raw.reshape(-1).tolist() if raw.dtype.kind in "iu" else a.reshape(-1)  # integer ids beyond 2**53 stay exact
         out = np.ma.array([PROBE_FLAGS[(int(v) + int(tag)) % 4] for v in flat], dtype="uint8")
         return out.reshape(a.shape)
 
@@ -375,6 +376,9 @@ def window_layouts(tb: Table, rng=None, half=False):
             if a is not None and b is not None and b < a:
                 continue
             out.append((a, b))
+    # inverted bounds (ending before starting): no instant satisfies starting <= t < ending, so no row is selected
+    inv = sorted({s[0], s[n // 2], s[-1], s[-1] + 1})
+    out += [(a, b) for a in inv for b in inv if b < a]
     return out
 
 
